@@ -23,7 +23,7 @@ TRUSTED = [
     "model: coq/Model/MessageM.v (Renderer, Message.to_wire, Rdataset.to_wire, _WireReader, find_rrset index, "
     "UpdateMessage._parse_rr_header, rcode/opcode packing) on top of coq/Model/NameM.v (tw_loop, ctable, relativize)",
     "RDATA is modelled as pieces (opaque octets / compressible name / non-compressible name); readers for "
-    "A NS CNAME SOA PTR MX TXT AAAA SRV RRSIG OPT TSIG, SPF NINFO AVC RESINFO WALLET AFSDB RT RP SSHFP TLSA SMIMEA CERT DNSKEY CDNSKEY OPENPGPKEY EUI48 EUI64 L32 L64 NID HINFO X25 NSEC3PARAM URI KEY DS DLV CDS ZONEMD CAA CSYNC NSEC3 (with the constructors' content checks: digest lengths, reserved values, alphanumeric tag, window order) (any class), KX PX DHCID NSAP WKS NAPTR (class IN) and generic types; other per-type codecs are C02's",
+    "A NS CNAME SOA PTR MX TXT AAAA SRV RRSIG OPT TSIG, SPF NINFO AVC RESINFO WALLET AFSDB RT RP SSHFP TLSA SMIMEA CERT DNSKEY CDNSKEY OPENPGPKEY EUI48 EUI64 L32 L64 NID HINFO X25 NSEC3PARAM URI KEY DS DLV CDS ZONEMD CAA CSYNC NSEC3 DNAME NSEC BRID HHIT (with the constructors' content checks: digest lengths, reserved values, alphanumeric tag, window order) (any class), KX PX DHCID NSAP NSAP-PTR WKS NAPTR (class IN) and generic types; other per-type codecs are C02's",
     "harness/msggen.py: builds implementation objects through the class constructors and converts parsed "
     "messages back through attribute access (never through to_wire/from_wire of the code under test)",
 ]
@@ -193,6 +193,21 @@ def cases(ctx):
             (g.AFSDB, b"\x00\x01"), (g.AFSDB, b"\x00\x01\x00"), (g.SPF, b""), (g.SPF, b"\x00"), (g.SPF, b"\x02a"), (g.WKS, bytes(4)), (g.WKS, bytes(5)),
             (g.NAPTR, bytes(4) + b"\x00\x00\x00\x00"), (g.NAPTR, bytes(4) + b"\x00\x00\x00"), (g.NAPTR, bytes(4) + b"\x01a\x01b\x01c\xc0\x0c"),
             (g.KX, b"\x00\x01\xc0\x0c"), (g.PX, b"\x00\x01\x00\x00"), (g.PX, b"\x00\x01\x00"), (g.OPENPGPKEY, b""), (g.DHCID, b""), (g.NSAP, b"")]
+    for bm in (b"", b"\x00\x01\x40", b"\x00\x00", b"\x01\x01\x01\x00\x01\x01", b"\x05", b"\x00\x21" + bytes(33)):
+        bad.append((g.NSEC, b"\x01b\x00" + bm))
+        bad.append((g.NSEC, b"\xc0\x0c" + bm))
+    bad += [(g.NSEC, b""), (g.NSEC, b"\x01b"), (g.DNAME, b"\x01b\x00"), (g.DNAME, b"\x01b\x00\x00"), (g.DNAME, b"\xc0\x0c"), (g.DNAME, b""),
+            (g.NSAP_PTR, b"\x01B\x00"), (g.BRID, b""), (g.BRID, b"abc"), (g.HHIT, b"\x00")]
+    # two records of one set whose RDATA names differ in case only: one record for the types whose canonical form
+    # downcases the name (RP), two for those that keep the case (NSAP-PTR; DNAME is a singleton: the second replaces)
+    def two_rr(t, r1, r2):
+        rr = lambda rd: b"\xc0\x0c" + struct.pack("!HHIH", t, g.IN, 60, len(rd)) + rd     # noqa: E731
+        return (struct.pack("!HHHHHH", 78, 0x8400, 1, 2, 0, 0) + b"\x01a\x00" + struct.pack("!HH", t, g.IN) + rr(r1) + rr(r2))
+    for t in (g.RP, g.NSAP_PTR, g.DNAME, g.AFSDB, g.NSEC, g.KX):
+        pre = b"\x00\x01" if t in (g.AFSDB, g.KX) else b""
+        post = b"\x00" if t == g.RP else (b"\x00\x01\x40" if t == g.NSEC else b"")
+        yield "parse:case-pair", [2, two_rr(t, pre + b"\x03abc\x00" + post, pre + b"\x03aBc\x00" + post), None, 16]
+        yield "parse:case-pair", [2, two_rr(t, pre + b"\x03abc\x00" + post, pre + b"\x03abc\x00" + post), None, 16]
     for t, rdata in bad:
         yield "parse:rdata-checks", [2, one_rr(t, rdata), None, 16]
         if t in (g.KX, g.PX, g.WKS, g.NAPTR, g.DHCID, g.NSAP, g.DS):
